@@ -165,7 +165,12 @@ func (s *Server) verifyPriority(pubkey *ecdsa.PublicKey, data *ConsensusCommon) 
 	}
 	isValid, err := VrfVerifyPriority(pk, lookBackSeed, data.RoundIndex, data.Step, data.SortitionProof,
 		data.Priority, data.SubUsers, s.CurrentCaravelParams().ProposerThreshold, stake, totalStake)
-	if err != nil || !isValid {
+	if err == nil && (!isValid || data.SubUsers == 0) {
+		// a wrong priority, or a "credential" without any proposer seat, is not an error of the
+		// VRF verification itself but still an invalid proposal
+		err = fmt.Errorf("invalid proposer priority")
+	}
+	if err != nil {
 		logging.Error("=======verify priority failed.", "Round", data.Round, "RoundIndex", data.RoundIndex,
 			"Kind", kind, "Sub-Users", data.SubUsers, "step", data.Step, "proposerTh", s.CurrentCaravelParams().ProposerThreshold,
 			"stake", stake, "totalStake", totalStake, "seed", lookBackSeed.String(), "addr", addr.String())
